@@ -198,7 +198,7 @@ func replayCycle(raw json.RawMessage) (string, string) {
 }
 
 func TestCyclicHistories(t *testing.T) {
-	ev.Rule(chkCycles, "rapid: create + p in 0..3 plain steps, then a cycle of length 1..4 (self-loop: next commitment == consumed commitment; k-cycle: the closing operation re-commits to the commitment consumed k-1 steps earlier) in the update chain or in the recovery chain, optionally a valid non-looping competitor for the closing operation's commitment anchored before or after it, a continuation behind the competitor, and operations re-revealing the revisited key; one recovery-chain case in four closes with a recover that hands the commitment it consumes on as its next update commitment, followed by an update revealing that key; all key types, both hash algorithms, drawn coordinates and store order; oracle: terminates (step bound), no commitment consumed twice within a chain, state == reference model; non-trivial = the closing operation is validly signed (it would be applied if the rule were absent)")
+	ev.Rule(chkCycles, "rapid: create + p in 0..3 plain steps, then a cycle of length 1..4 (self-loop: next commitment == consumed commitment; k-cycle: the closing operation re-commits to the commitment consumed k-1 steps earlier) in the update chain or in the recovery chain, optionally a valid non-looping competitor for the closing operation's commitment anchored before or after it, a continuation behind the competitor, and operations re-revealing the revisited key; one recovery-chain case in four closes with a recover that hands the commitment it consumes - or one consumed further back in the recovery chain - on as its next update commitment, followed by an update revealing that key; all key types, both hash algorithms, drawn coordinates and store order; oracle: terminates (step bound), no commitment consumed twice within a chain, state == reference model; non-trivial = the closing operation is validly signed (it would be applied if the rule were absent)")
 	ev.Rapid(t, chkCycles, 500, 5000, func(t *rapid.T) {
 		code := rapid.SampledFrom([]uint64{asm.SHA256, asm.SHA512}).Draw(t, "hash")
 		nk := 0
@@ -266,17 +266,25 @@ func TestCyclicHistories(t *testing.T) {
 			}
 			closing = hist.NewSigned(spec)
 		}
+		crossKey := cur
 		crossChain := inRecovery && !closingForged && rapid.IntRange(0, 3).Draw(t, "crossChain") == 0
 		if crossChain {
 			// the closing recover names a fresh recovery commitment but hands the commitment it consumes on as the next
 			// UPDATE commitment; an update revealing that very key follows
 			closing = hist.NewSigned(hist.SignedSpec{Name: "closing-cyc", Type: "recover", Suffix: s, Code: code, Reveal: cur, NextRec: key(), Markers: map[string]interface{}{"closing": "v"},
 				Opt: hist.Opt{NextUpdate: asm.Commit(cur, code)}})
+			if len(chainKeys) > 0 && rapid.Bool().Draw(t, "crossChainEarlier") {
+				// ... or a recovery commitment consumed further back in the chain (the update with that key follows below)
+				cur2 := rapid.SampledFrom(chainKeys).Draw(t, "crossChainTarget")
+				closing = hist.NewSigned(hist.SignedSpec{Name: "closing-cyc", Type: "recover", Suffix: s, Code: code, Reveal: cur, NextRec: key(), Markers: map[string]interface{}{"closing": "v"},
+					Opt: hist.Opt{NextUpdate: asm.Commit(cur2, code)}})
+				crossKey = cur2
+			}
 		}
 		ops = append(ops, closing)
 		closeIdx := len(ops) - 1
 		if crossChain {
-			ops = append(ops, hist.NewSigned(hist.SignedSpec{Name: "update-with-recovery-key", Type: "update", Suffix: s, Code: code, Reveal: cur, NextUpd: key(), Markers: map[string]interface{}{"twice": "v"}}))
+			ops = append(ops, hist.NewSigned(hist.SignedSpec{Name: "update-with-recovery-key", Type: "update", Suffix: s, Code: code, Reveal: crossKey, NextUpd: key(), Markers: map[string]interface{}{"twice": "v"}}))
 		}
 		compIdx := -1
 		if rapid.Bool().Draw(t, "competitor") {
